@@ -263,6 +263,10 @@ func genCase(r *common.Rng, c dcfg, kind string, w *bufio.Writer) {
 	}
 	// base scene level relative to the threshold / the dynamic bounds
 	base := c.thresh + r.Pick(-300, 0, 1, 300, 2000)
+	if kind == "cold" {
+		// scenes sitting just below the threshold, so that blobs cross it by about delta
+		base = c.thresh - r.Pick(0, 1, c.delta/2, c.delta, c.delta+1, 300)
+	}
 	if c.dyn == 1 {
 		base = r.Pick(2000, 2999, 3000, 3500, 4000, 4001, 5000)
 	}
@@ -301,6 +305,12 @@ func genCase(r *common.Rng, c dcfg, kind string, w *bufio.Writer) {
 		}
 		k := c.count + r.Pick(-1, 0, 0, 1)
 		amp := c.delta + r.Pick(-1, 0, 1, 1, 30)
+		if kind == "cold" && base < c.thresh {
+			amp += c.thresh - base // measured from the threshold, not from the cold scene
+			if r.Chance(30) {
+				amp = r.Pick(1, c.delta, c.delta+1) // stays below or just reaches the threshold
+			}
+		}
 		if amp < 0 {
 			amp = 0
 		}
